@@ -23,6 +23,30 @@ ALPHABET = [
     "binary_64k",
 ]
 ENDERS = ("eof", "reset", "silence", "tls_error", "io_error")
+# the connection goes through an HTTP proxy: what the proxy does with the CONNECT request
+PROXY_KINDS = ["ok", "407", "stall", "stall_mid", "eof", "eof_mid", "reset_mid", "garbage"]
+PROXY_200 = b"HTTP/1.1 200 Connection established\r\nVia: 1.1 p\r\n\r\n"
+
+
+def proxy_script(kind):
+    """Script steps after the CONNECT request; returns (steps, tunnel comes up?)."""
+    if kind == "ok":
+        return [["stream", [["bytes", PROXY_200]], "whole", 0.0], ["wait_requests", 2]], True
+    if kind == "407":
+        return [["stream", [["bytes", b"HTTP/1.1 407 Proxy Authentication Required\r\n\r\n"]], "whole", 0.0], ["eof", 0.0]], False
+    if kind == "stall":
+        return [], False                      # accepts the connection and never answers
+    if kind == "stall_mid":
+        return [["stream", [["bytes", PROXY_200[:40]]], "whole", 0.0]], False
+    if kind == "eof":
+        return [["eof", 0.0]], False
+    if kind == "eof_mid":
+        return [["stream", [["bytes", PROXY_200[:40]]], "whole", 0.0], ["eof", 0.0]], False
+    if kind == "reset_mid":
+        return [["stream", [["bytes", PROXY_200[:12]]], "whole", 0.0], ["reset", 0.0]], False
+    if kind == "garbage":
+        return [["stream", [["bytes", b"\x16\x03\x01\x02\x00" + b"\xaa" * 40 + b"\r\n\r\n"]], "whole", 0.0], ["eof", 0.0]], False
+    raise ValueError(kind)
 FIRST_ONLY = ["refused"]
 
 POLICIES = ["passive", "close@connected", "close@ready", "close@message", "close@poll",
@@ -194,7 +218,8 @@ class C07(Prop):
     level = "exploration"
     rule = ("bounded exhaustive: every sequence of `depth` server steps over a 23-symbol alphabet (handshake variants, "
             "data/control/invalid frames, a frame exactly as long as the 64 KiB receive buffer, close, half frame, silences, EOF, reset, a fatal TLS error or routing failure that every "
-            "later read repeats (wss://); connection refused as first step) x 9 "
+            "later read repeats (wss://); connection refused as first step); the same through an HTTP proxy that answers 200, refuses, "
+            "stalls, drops or resets during the CONNECT exchange (ws and wss targets) x 9 "
             "application policies x 2 option sets, each ending in EOF; depth 3 in quick, 4 in thorough. Hypothesis: scripts of up "
             "to 40 steps with per-event reaction plans and random timer settings. Oracle: a monitor for the event grammar "
             "(Connecting first; ConnectFail-and-stop or Connected; Ready once, after Connected; message/Poll/Closing/Closed only "
@@ -238,10 +263,28 @@ class C07(Prop):
                                 for kind in ("timeout", "exc"):
                                     yield {"steps": [first, mid, end], "policy": pi, "opts": oi, "send_fault": [k, kind]}
 
+    def proxy_cases(self):
+        """Histories of connections made THROUGH AN HTTP PROXY (ws and wss targets): the proxy refuses, stalls, drops
+        or resets during the CONNECT exchange, or brings the tunnel up and a 3-step history follows."""
+        for secure in (False, True):
+            for oi in range(len(OPTION_SETS)):
+                for pi in range(len(POLICIES)):
+                    for kind in PROXY_KINDS[1:]:
+                        yield {"steps": [], "policy": pi, "opts": oi, "proxy": kind, "tls": secure}
+                    for first in ("reply", "reply_deflate", "reply_403", "eof", "half_frame"):
+                        if first in ("reply", "reply_deflate"):
+                            for mid in ALPHABET[5:17]:
+                                for end in ("eof", "silence", "reset"):
+                                    yield {"steps": [first, mid, end], "policy": pi, "opts": oi, "proxy": "ok", "tls": secure}
+                        else:
+                            yield {"steps": [first] if first == "eof" else [first, "eof"], "policy": pi, "opts": oi,
+                                   "proxy": "ok", "tls": secure}
+
     def enumerations(self, tier):
         depth = 3 if tier == "quick" else 4
         return [Enumeration("histories_depth_%d" % depth, lambda: self.history_cases(depth), exhaustive=True),
-                Enumeration("histories_with_one_failed_write", self.fault_cases, exhaustive=True)]
+                Enumeration("histories_with_one_failed_write", self.fault_cases, exhaustive=True),
+                Enumeration("histories_through_a_proxy", self.proxy_cases, exhaustive=True)]
 
     def strategy(self, tier):
         action = st.one_of(
@@ -269,6 +312,7 @@ class C07(Prop):
             "first": first, "rest": rest,
             "end": st.sampled_from(["eof", "eof", "reset", "silence", "tls_error", "tls_eof", "io_error"]),
             "tls": gen.weighted([(3, st.just(False)), (1, st.just(True))]),
+            "proxy": gen.weighted([(5, st.none()), (1, st.sampled_from(PROXY_KINDS))]),
             # an earlier connection in this process (same WebSocket object or another) and how it ended
             "prelude": gen.prelude(),
             # a second live connection in the same process (interleaved with this one, or blocked in a send)
@@ -295,11 +339,21 @@ class C07(Prop):
             labels = {"generated"}
         script = [["wait_request"]]
         att = {}
+        ws_opts = None
+        proxy = case.get("proxy")
+        tunnel = True
+        if proxy:
+            psteps, tunnel = proxy_script(proxy)
+            script += psteps
+            ws_opts = {"proxies": {"http": "http://proxy.test:3128", "https": "http://proxy.test:3128"}}
+            labels.add("proxy:" + proxy)
         if "policy" in case and case.get("send_fault"):
             att["faults"] = {"send": {str(case["send_fault"][0]): case["send_fault"][1]}}
             labels.add("send_fault")
         if steps == ["refused"]:
             att["addrs"] = [{"connect": "refused"}]
+        elif not tunnel:
+            pass          # the proxy exchange fails: nothing of the history is ever reached
         else:
             for s in steps:
                 script.extend(step_to_script(s))
@@ -310,11 +364,11 @@ class C07(Prop):
             if case.get("send_fault"):
                 att["faults"] = {"send": {str(case["send_fault"][0]): case["send_fault"][1]}}
                 labels.add("send_fault")
-        silent_end = steps[-1] == "silence"
-        tls = bool(case.get("tls")) or steps[-1].startswith("tls_")
+        silent_end = bool(steps) and steps[-1] == "silence" and tunnel
+        tls = bool(case.get("tls")) or (bool(steps) and steps[-1].startswith("tls_"))
         if tls:
             labels.add("wss")
-        scn = build.scenario(script, connect_opts=copts, reactions=reactions, attempt_extra=att,
+        scn = build.scenario(script, connect_opts=copts, reactions=reactions, attempt_extra=att, ws_opts=ws_opts,
                              horizon=600.0 if silent_end else None, **({"url": "wss://example.test/"} if tls else {}))
         tr = simnet.run_scenario(scn)
         names = tr.names()
